@@ -616,7 +616,9 @@ def oracle_update(c, r):
 # ------------------------------------------------------- nested re-configuration through set_params
 
 NESTED = {"pelt": "cost", "mw": "change_score", "sbs": "change_score", "cbs": "anomaly_score", "capa": "collective_saving",
-          "mvcapa": "collective_saving", "loc": "cost", "sav": "baseline_cost", "chg": "cost"}
+          "mvcapa": "collective_saving", "loc": "cost", "sav": "baseline_cost", "chg": "cost",
+          # the cost inside a Saving handed to the detector is REPLACED by one of another class (other parameter count)
+          "mvcapa-swap": "collective_saving__baseline_cost", "capa-swap": "collective_saving__baseline_cost"}
 
 
 def nested_case(rng):
@@ -638,9 +640,32 @@ def _mk_nested(c, prm):
             "chg": lambda: ChangeScore(cost)}[c["kind"]]()
 
 
+def impl_nested_swap(c):
+    from skchange.anomaly_detectors import CAPA, MVCAPA
+    from skchange.anomaly_scores import Saving
+    from skchange.costs import GaussianVarCost, L2Cost
+
+    X = datasets(c["seed"])[3 if c["kind"] == "mvcapa-swap" else c["data"]]
+    cls = MVCAPA if c["kind"] == "mvcapa-swap" else CAPA
+    try:
+        a = cls(Saving(L2Cost(param=c["p0"])))
+        if c["used_before"]:
+            a.fit(X)
+        a.set_params(collective_saving__baseline_cost=GaussianVarCost(param=(c["p1"], 1.5)))
+        b = cls(Saving(GaussianVarCost(param=(c["p1"], 1.5))))
+        a.fit(X)
+        b.fit(X)
+        same = frame_sig(a.predict(X)) == frame_sig(b.predict(X)) and frame_sig(a.transform_scores(X)) == frame_sig(b.transform_scores(X))
+        return {"outcome": "ok", "same": bool(same)}
+    except Exception as ex:
+        return {"outcome": "other:" + type(ex).__name__, "msg": str(ex)[:200]}
+
+
 def impl_nested(c):
     """an object whose wrapped cost is re-configured through `set_params(<component>__param=...)` must behave like one
     constructed with that configuration"""
+    if c["kind"].endswith("-swap"):
+        return impl_nested_swap(c)
     X = datasets(c["seed"])[c["data"]]
     key = NESTED[c["kind"]] + "__param"
     new = c["p1"] if c["cost"] == "l2" else (c["p1"], 1.5)
@@ -668,8 +693,9 @@ def oracle_nested(c, r):
     if r["outcome"] != "ok":
         return f"{c['kind']}: nested set_params raised {r['outcome']} {r.get('msg', '')}"
     if not r["same"]:
-        return (f"{c['kind']} ({c['cost']}) re-configured by set_params({NESTED[c['kind']]}__param={c['p1']}) differs from an object constructed "
-                f"with that parameter" + (" (it had been fitted before)" if c["used_before"] else ""))
+        what = f"set_params({NESTED[c['kind']]}=GaussianVarCost(...))" if c["kind"].endswith("-swap") else f"set_params({NESTED[c['kind']]}__param={c['p1']})"
+        return (f"{c['kind']} ({c['cost']}) re-configured by {what} differs from an object constructed that way"
+                + (" (it had been fitted before)" if c["used_before"] else ""))
     return None
 
 
